@@ -16,12 +16,16 @@ def configs(tier, seed):
     for n, nu in sizes:
         for part in sup.partitions(n, 2, min(n, 3)):
             for branch in ("pre", "fn"):
+                if n + nu >= 5 and branch == "fn":
+                    continue
                 cfgs.append(dict(n=n, nu=nu, K=3, part=list(part), branch=branch, semi=True, weight=10 ** (n + nu),
                                  wstride=7 if n + nu <= 3 else (97 if n + nu == 4 else 4001)))
     # empty unlabeled set == supervised
     for n in ([2, 3, 4] if tier == "quick" else [2, 3, 4, 5]):
         for part in sup.partitions(n, 2, 3 if n < 5 else 2):
             for branch in ("pre", "fn"):
+                if n >= 5 and branch == "fn":
+                    continue
                 cfgs.append(dict(n=n, nq=1 if n <= 4 else 0, K=3, part=list(part), branch=branch, mode="semi0",
                                  weight=10 ** n * 3, wstride=11 if n <= 3 else (197 if n == 4 else 9001)))
     return cfgs
